@@ -2,7 +2,7 @@
 import struct
 from gen import common, framing
 from gen.common import hexs
-from gen.props.C01 import replay  # same harness / component
+from gen.props.C01 import replay as _replay01  # same harness / component
 
 LEAN_MODULE = "XcmModel.Props.C07"
 THEOREMS = [
@@ -10,6 +10,7 @@ THEOREMS = [
     "XcmModel.C07.C07_bounded_buffer", "XcmModel.C07.refDecode_frames",
     "XcmModel.C07.C07_reference_decoder", "XcmModel.C07.C07_illegal_length_eproto",
     "XcmModel.C07.C07_eproto_sticky",
+    "XcmModel.C07btls.C07_btls_handshake_garbage", "XcmModel.C07btls.C07_btls_record_garbage", "XcmModel.C07btls.C07_btls_no_abort",
 ]
 
 
@@ -124,3 +125,16 @@ def run(ctx):
     ctx.assumptions += ["garbage during/instead of the TLS handshake is handled by OpenSSL and xcm_tp_btls.c; it is not part of "
                         "this unit-level check (see the C06/C09 checks and the system harness)",
                         "C-level memory safety only via the model's abort outcome + ASan/UBSan on the sampled runs"]
+    from gen import btls as _btls
+    _btls.run_part(ctx, 40 if quick else 2000, exhaustive=True)
+    ctx.rule += (" unit_btls: the real xcm_tp_btls.c with scripted OpenSSL answers (SSL_ERROR_SSL, SSL_ERROR_SYSCALL with a queued "
+                 "error = undecodable input during the handshake or in the record stream) vs the Lean Btls model.")
+
+
+def replay(path):
+    import json
+    r = json.load(open(path))
+    if r.get("harness") == "unit_btls":
+        from gen import btls as _btls
+        return _btls.replay(r)
+    return _replay01(path)
